@@ -924,11 +924,11 @@ def knot_refinement(degree, knotvector, ctrlpts, **kwargs):
     else:
         new_ctrlpts = [[[] for _ in range(len(ctrlpts[0]))] for _ in range(n + r + 2)]
 
-    # Fill unchanged control points
+    # Fill unchanged control points (copies: rows of the input are blended entry by entry below)
     for j in range(0, a - degree + 1):
-        new_ctrlpts[j] = ctrlpts[j]
+        new_ctrlpts[j] = list(ctrlpts[j])
     for j in range(b - 1, n + 1):
-        new_ctrlpts[j + r + 1] = ctrlpts[j]
+        new_ctrlpts[j + r + 1] = list(ctrlpts[j])
 
     # Initialize new knot vector array
     new_kv = [0.0 for _ in range(m + r + 2)]
@@ -947,7 +947,7 @@ def knot_refinement(degree, knotvector, ctrlpts, **kwargs):
     # Apply knot refinement
     while j >= 0:
         while X[j] <= knotvector[i] and i > a:
-            new_ctrlpts[k - degree - 1] = ctrlpts[i - degree - 1]
+            new_ctrlpts[k - degree - 1] = list(ctrlpts[i - degree - 1])
             new_kv[k] = knotvector[i]
             k -= 1
             i -= 1
